@@ -353,6 +353,8 @@ pub enum Case {
     NewRouting { ty: u8, range: u8, first: u8, phys: u8 },
     NewVendor { iana: bool, id: u32 },
     NewTransport { version: u8 },
+    /// MCTPMessageBodyHeader::new(false, variant)  (index into calls::MSG_TYPES)
+    NewBody { mt: u8 },
 }
 
 pub struct C18;
@@ -506,6 +508,9 @@ impl Prop for C18 {
         }
         for version in 0..=255u8 {
             emit(Case::NewTransport { version });
+        }
+        for mt in 0..6u8 {
+            emit(Case::NewBody { mt });
         }
     }
     fn enumerated_desc(&self, tier: Tier) -> Option<String> {
@@ -695,6 +700,16 @@ impl Prop for C18 {
                     if h.0 != (*id as u16).to_be_bytes() {
                         r.fail("C18:pci:new".to_string(), format!("PCIMessageFormat::new({:#x}) = {:02x?}", *id as u16, h.0));
                     }
+                }
+            }
+            Case::NewBody { mt } => {
+                r.label("new");
+                r.nontrivial = true;
+                let code = crate::calls::MSG_TYPES[*mt as usize];
+                let h = MCTPMessageBodyHeader::new(false, crate::sut::mt_from_idx(*mt));
+                // integrity bit clear (ic = false), the type stored truncated to its 7-bit field
+                if h.0 != [code & 0x7F] {
+                    r.fail("C18:body:new".to_string(), format!("MCTPMessageBodyHeader::new(false, type {:#04x}) = {:02x?}, want [{:#04x}] (integrity bit clear, 7-bit type)", code, h.0, code & 0x7F));
                 }
             }
             Case::NewTransport { version } => {
